@@ -812,6 +812,8 @@ package avro
 //@   loop 2 invariant [C07] (count >= 0 ==> i <= count) && i < 1<<61 && 3*i + 1 <= tlen() && tkind(tlen() - 1 - 3*i) == evENC
 //@   loop 2 invariant br != nil && wfRBS(br) && inlen() - inpos() < loopdec(1)
 //@   loop 2 invariant rtyp != nil && rawalloc(p, rtypesz(rtyp)) && codec != nil && wfc(codec) && dsz(codec) <= rtypesz(rtyp) && 0 <= dsz(codec)
+//     ... and the record loop is left for the sync check only after the declared number of records was delivered
+//@   loop 2 exit assert [C07] i >= count
 //@   loop 2 decreases count - i
 
 // ---------------------------------------------------------------- decompressors (C07: damage is reported, never silently accepted)
@@ -1345,6 +1347,31 @@ package avro
 //@   after buildCodec#1 apply kind_sizes(data(fieldType))
 //@   loop 2 decreases len(schema.Object.Fields) - rangeindex
 
+// Second contract of buildRecordCodec (view "match"): fields are selected by name, completely.  The codec has one entry
+// per schema field, in schema order, and an entry whose name is the JSON name of some non-excluded field of the struct is
+// bound to the struct (offset != MaxUint64), never skipped.  Kept apart from the main contract so that each query stays small.
+//@ view match of buildRecordCodec
+//@   props C04, C03, C20
+//@   let d := data(typ)
+//@   requires typ != nil ==> data(typ) != nil
+//@   ensures [C04,C03] err == nil ==> len(cast("*recordCodec", data(res)).fields) == len(schema.Object.Fields)
+//@   ensures [C04,C03] forall k int :: forall ix int :: err == nil && typ != nil && 0 <= k && k < len(schema.Object.Fields) && 0 <= ix && ix < rnumfield(d) && !rfexcl(d, ix) && rfkey(d, ix) == schemaKey(schema, k) ==> present(cast("*recordCodec", data(res)), k)
+//     C20: every field codec is obtained from buildCodec, for the type of the struct field it is bound to (nil when skipped)
+//@   ensures [C20] err == nil ==> tlen() == len(schema.Object.Fields) && forall k int :: 0 <= k && k < tlen() ==> tkind(k) == evBUILD
+//@   loop 1 invariant 0 <= i && i <= rnumfield(d) && ntf != nil && typ != nil && rkind(d) == 25 && tlen() == 0
+//@   loop 1 invariant forall k uint64 :: maphask(ntf, k) ==> mapgetk(ntf, k).Offset < 1<<40 && data(mapgetk(ntf, k).Type) != nil
+//@   loop 1 invariant forall ix int :: 0 <= ix && ix < i && !rfexcl(d, ix) ==> maphask(ntf, rfkey(d, ix))
+//@   loop 1 uses struct_layout(d, i, 0)
+//@   loop 1 decreases rnumfield(d) - i
+//@   loop 2 invariant -1 <= rangeindex && rangeindex < len(schema.Object.Fields) && (len(schema.Object.Fields) == 0 ==> rangeindex == -1)
+//@   loop 2 invariant len(rc.fields) == rangeindex + 1 && (typ == nil ==> ntf == nil)
+//@   loop 2 invariant forall k uint64 :: maphask(ntf, k) ==> mapgetk(ntf, k).Offset < 1<<40 && data(mapgetk(ntf, k).Type) != nil
+//@   loop 2 invariant forall ix int :: typ != nil && 0 <= ix && ix < rnumfield(d) && !rfexcl(d, ix) ==> maphask(ntf, rfkey(d, ix))
+//@   loop 2 invariant forall k int :: 0 <= k && k <= rangeindex && maphask(ntf, schemaKey(schema, k)) ==> present(addr(rc), k)
+//@   loop 2 invariant [C20] tlen() == rangeindex + 1 && forall k int :: 0 <= k && k <= rangeindex ==> tkind(k) == evBUILD \
+//@        && (maphask(ntf, schemaKey(schema, k)) ==> tb(k) == uint64(data(mapgetk(ntf, schemaKey(schema, k)).Type))) && (!maphask(ntf, schemaKey(schema, k)) ==> ta(k) == 0)
+//@   loop 2 decreases len(schema.Object.Fields) - rangeindex
+
 //@ func (*MapCodec).Read
 //@   implements Codec.Read
 //@   props C06, C05, C03
@@ -1542,7 +1569,11 @@ package avro
 //@   ensures [C12] rlockframe(schemaRegistryMutex)
 //@   modifies type sync.RWMutex, heap cell:github.com/philpearl/avro.Schema.Type.base, heap cell:github.com/philpearl/avro.Schema.Type.off, heap cell:github.com/philpearl/avro.Schema.Type.len, ghost lock.rheld
 
-// field enumeration through reflect.StructField values is not modelled: trusted
+// field enumeration through reflect.StructField values: trusted (nameForField and omitEmpty, which decide names,
+// exclusions and the omitempty option, are verified; the loop that appends the fields is covered by a bounded stand-in).
+// An attempt to verify it (count and order of the fields through a counting ghost, omitempty fields are unions) stalled on
+// the coarse frames of schemaForType / nullableSchema (they list the Schema string cells as modified instead of proving
+// that only fresh cells are written), which destroy what the loop knows about the fields appended earlier.
 //@ func schemaForStruct
 //@   props C12
 //@   measure 2 * tdepth(data(typ))
